@@ -439,4 +439,35 @@ def rule_i(ctx: Ctx) -> None:
                 'be compensated by a restore through an alias of the old object.')
 
 
-RULES = [rule_a, rule_b, rule_c, rule_d, rule_e, rule_f, rule_g, rule_h, rule_i]
+def rule_j(ctx: Ctx) -> None:
+    """The elements a constraint selects are found in two passes - the selector walked over the content model of the declaring element,
+    then the leaf names of the selector looked up among the global elements (that is how members of a substitution group and globals
+    admitted by a wildcard are bound).  The second pass is not an alternative to the first: with a union selector `product|special` the
+    first pass binds `product` and only the second binds the substitute `special`.  Both passes lie on every normal path."""
+    rule = 'C08.j'
+    f = ctx.idx.method('xmlschema.validators.identities.XsdIdentity', 'update_elements')
+    ctx.analysed(f.qualname)
+    g = cfg_of(ctx, f)
+    p1 = [x for x in g.nodes if x.kind == 'for' and 'select_results' in text(x.ast.iter)]
+    p2 = [x for x in g.nodes if x.kind == 'for' and 'iter_leaf_elements' in text(x.ast.iter)]
+    if len(p1) != 1 or len(p2) != 1:
+        raise AnalysisError(f'UNRECOGNISED-IDIOM {rule}: the two passes of {f.qualname}')
+    w = g.must_pass(p1[0], [g.exit], p2, kinds='nTF')
+    ok = w is None
+    ctx.ob(rule, 'XsdIdentity.update_elements: after the walk over the content model the lookup of the selector\'s leaf names among the global elements always follows',
+           f.loc(p2[0].ast), ok,
+           '' if ok else f'the function can return at line {w[-2].lineno if len(w) > 1 else w[-1].lineno} between the two passes: for a selector `product|special` where `special` is a '
+           'substitute reachable only globally, the instances of `special` are not bound to the constraint - duplicate keys among them are accepted, a keyref to them is '
+           'reported dangling', key='XsdIdentity.update_elements|both-passes')
+    # both passes register an element the same way (sibling blocks): the table entry and the back reference
+    regs = []
+    for lp in (p1[0], p2[0]):
+        body = ' ## '.join(text(s_) for s_ in ast.walk(lp.ast) if isinstance(s_, (ast.Assign, ast.Expr)))
+        regs.append(('self.elements[e] =' in body, 'e.selected_by.add(self)' in body))
+    ctx.ob(rule, 'XsdIdentity.update_elements: both passes register the element in self.elements and in e.selected_by', f.loc(p1[0].ast), regs[0] == regs[1] == (True, True), f'{regs}',
+           key='XsdIdentity.update_elements|register-alike')
+    ctx.explain('C08.j: must-pass-through from the first pass (loop over select_results) to the exit through the second pass (loop over iter_leaf_elements); the two registration '
+                'blocks agree.')
+
+
+RULES = [rule_a, rule_b, rule_c, rule_d, rule_e, rule_f, rule_g, rule_h, rule_i, rule_j]
